@@ -12,12 +12,13 @@ PM == Str("||h.test^")
 SrcDom == <<Str("src"), Str("test")>>
 P0 == [BaseRule EXCEPT !.pat = PM]
 DomF == {"none", "perm", "rest"}
-TypF == IF Full THEN {0, 1, 2} ELSE {0, 1}
+TypF == IF Full THEN {0, 1, 2, 11} ELSE {0, 11}         \* 11: nearly every content type excluded - a generic rule with many modifiers
 ThrF == IF Full THEN {"none", "on", "off"} ELSE {"none", "on"}
 Mk(w, i, d, t, th, dt, tg, cl, da) ==
     [P0 EXCEPT !.white = w, !.important = i,
                !.permDom = IF d = "perm" THEN {SrcDom} ELSE {}, !.restDom = IF d = "rest" THEN {SrcDom} ELSE {},
-               !.restTypes = IF t = 0 THEN {} ELSE IF t = 1 THEN {"script"} ELSE {"script", "image"},
+               !.restTypes = IF t = 0 THEN {} ELSE IF t = 1 THEN {"script"} ELSE IF t = 2 THEN {"script", "image"}
+                             ELSE Types \ {"document"},
                !.third = th, !.permDns = IF dt THEN {"A"} ELSE {}, !.permTag = IF tg THEN {Str("t1")} ELSE {},
                !.permCli = IF cl THEN {[k |-> "name", v |-> Str("phone")]} ELSE {},
                !.denyallow = IF da THEN {<<Str("other"), Str("test")>>} ELSE {}]
